@@ -40,22 +40,43 @@ def run(ctx):
 def blocking_mode(ctx, rid):
     """The main loop only polls: TConn.__init__ and the keep-alive re-arm put the socket into non-blocking mode. A pool
     thread does blocking reads and writes: recv() on a request that arrives in two segments, or sendall() of a response
-    larger than the socket buffer, would fail with EAGAIN on a non-blocking socket. Evaluated: TConn.init(), which
-    enqueue_req runs before *every* hand-over, sets blocking mode for a fresh connection and for a kept-alive one."""
+    larger than the socket buffer, would fail with EAGAIN on a non-blocking socket. Evaluated: the hand-over
+    `on_client_socket_readable(conn) -> enqueue_req(conn) -> conn.init() -> tpool.submit` is played for a fresh connection, a
+    fresh TLS connection and a kept-alive one (a heap object; the three methods entered with their effects, every
+    `setblocking(v)` recorded in order): the last call before the submit is setblocking(True) -- wherever on that route it is
+    made."""
     repo = ctx.repo
-    from ..absint import Inst
-    f = ctx.fn(repo.func("gunicorn.workers.gthread.TConn.init"))
+    from ..absint import Inst, Ref, HEAP
+    f = ctx.fn(repo.func(TW + ".on_client_socket_readable"))
+    ctx.fn(repo.func("gunicorn.workers.gthread.TConn.init"))
+    ctx.fn(repo.func(TW + ".enqueue_req"))
     g = f.cfg
-    on = [n for c in method_calls(f, "setblocking") if c.args and const(c.args[0], NO) in (True, 1) for n in nodes_with(f, c)]
-    off = [n for c in method_calls(f, "setblocking") if c.args and const(c.args[0], NO) in (False, 0) for n in nodes_with(f, c)]
-    for label, env in (("a fresh connection", {"self.parser": None, "self.initialized": False, "self.cfg.is_ssl": False}),
-                       ("a fresh TLS connection", {"self.parser": None, "self.initialized": False, "self.cfg.is_ssl": True}),
-                       ("a kept-alive connection (second or later request)", {"self.parser": Inst("gunicorn.http.parser.RequestParser"), "self.initialized": True, "self.cfg.is_ssl": False})):
-        outs = Explorer(f, tracked=["self.parser", "self.initialized"]).run(g.entry, env, watch=dict([(n.id, "blocking") for n in on] + [(n.id, "nonblocking") for n in off]))
-        got = set(("blocking" in o.events, "nonblocking" in o.events) for o in outs if o.kind == "return")
-        ctx.check(rid, got == {(True, False)}, key(f, "blocking-before-thread|" + label), site(f),
-                  "TConn.init() on %s does not put the socket into blocking mode (%s): the pool thread's recv()/sendall() fail with EAGAIN as soon as a request arrives in two segments or a "
-                  "response exceeds the socket buffer -- the connection is dropped mid-request" % (label, sorted(got)), "setblocking(True) on every hand-over")
+    CONN = f.params[1]
+    enter = lambda q: q in (TW + ".enqueue_req", "gunicorn.workers.gthread.TConn.init")
+
+    def tr(ex, c, env):
+        return ex.ev(c.args[0], env) if c.args else None
+    for label, heap in (("a fresh connection", {"parser": None, "initialized": False}), ("a fresh TLS connection", {"parser": None, "initialized": False}),
+                        ("a kept-alive connection (second or later request)", {"parser": Inst("gunicorn.http.parser.RequestParser"), "initialized": True})):
+        c0 = Ref("conn", "gunicorn.workers.gthread.TConn")
+        ex = Explorer(f, tracked=["self._keep", "self.nr_conns"], enter=enter, call_trace={".setblocking": tr, ".submit": (lambda ex_, c, env: "submit")}, enter_depth=3)
+        hp = {("conn", k_): v_ for k_, v_ in heap.items()}
+        hp[("conn", "cfg")] = Ref("cfg")
+        hp[("cfg", "is_ssl")] = "TLS" in label
+        env = {HEAP: hp, ex.key_of(ast.Name(id=CONN, ctx=ast.Load())): c0, "self._keep": (c0,) if heap["initialized"] else ()}
+        outs = [o for o in ex.run(g.entry, env) if o.kind == "return"]
+        ctx.need(outs, "%s: the hand-over of %s has no normal outcome" % (rid, label))
+        for o in outs:
+            trace = [(q, v) for q, v in o.env.get(Explorer.TRACE, ())]
+            if (".submit", "submit") not in trace:
+                continue
+            before = [v for q, v in trace[:trace.index((".submit", "submit"))] if q == ".setblocking"]
+            okk = bool(before) and before[-1] in (True, 1)
+            ctx.check(rid, okk, key(f, "blocking-before-thread|" + label), site(f),
+                      "%s is handed to a pool thread with its socket not in blocking mode (setblocking calls on the way: %s): the thread's recv()/sendall() fail with EAGAIN as soon as a request "
+                      "arrives in two segments or a response exceeds the socket buffer -- the connection is dropped mid-request" % (label, before), "setblocking(True) is the last mode set before tpool.submit")
+        ctx.check(rid, any((".submit", "submit") in [(q, v) for q, v in o.env.get(Explorer.TRACE, ())] for o in outs), key(f, "handed-over|" + label), site(f),
+                  "%s that becomes readable is never submitted to the pool" % label, "submitted")
     fe = ctx.fn(repo.func(TW + ".enqueue_req"))
     ge = fe.cfg
     ini = [n for c in method_calls(fe, "init") for n in nodes_with(fe, c)]
